@@ -512,3 +512,39 @@ def only_errors_from(prov, fn, node, forbidden_blocks=()):
         if b2 in reach and t["dst"]["l"] == 0 and not t["dst"]["p"] and not t["callee"]["key"].endswith("FromResidual::from_residual"):
             return False
     return True
+
+
+def forward_target(facts, prov, fn):
+    """`fn` only hands its work to one other local function (`fn new() -> Self { Self::new_custom() }`): (that function,
+    origins of the arguments it is given, the call's block) - None when fn does anything else (another non-value-preserving
+    call, a branch, a loop)"""
+    from .prov import callee_is_vp
+    if any(fn.blocks[b]["term"]["k"] == "switch" for b in fn.order):
+        return None
+    nonvp = [(b, t) for b, t in fn.calls() if not callee_is_vp(t["callee"])]
+    if len(nonvp) != 1:
+        return None
+    b, t = nonvp[0]
+    c = t["callee"]
+    g = facts.fn(c.get("resolved") or c["key"]) if c.get("local") else None
+    if g is None or g.key == fn.key:
+        return None
+    r = peel(prov.ret(fn))
+    if not (r[0] == "call" and r[4] == (fn.key, b)):
+        return None
+    return g, prov.call_args(fn, t, b), b
+
+
+def returned_value(facts, prov, fn, depth=2):
+    """origin of what `fn` returns, looking through pure forwarding (forward_target) with the arguments substituted"""
+    from .prov import map_origin
+    ft = forward_target(facts, prov, fn) if depth > 0 else None
+    if ft is None:
+        return prov.ret(fn)
+    g, args, b = ft
+
+    def sub(x):
+        if x[0] == "param" and 1 <= x[1] <= len(args):
+            return args[x[1] - 1]
+        return None
+    return map_origin(returned_value(facts, prov, g, depth - 1), sub)
